@@ -13,9 +13,18 @@ package sarama
 // ---------------------------------------------------------------------------------------------
 // partitioner.go (C17)
 
+// fnvOf(b): what the partitioner's hasher yields for the bytes b (T-stdlib: after Reset and one Write(b), Sum32 is a
+// function of b alone). The partition of a keyed message is a function of the encoded key and the partition count:
+// toPositive(hash) % n for the reference (Java-compatible) variant, |int32(hash) % n| for the historical one.
+//@ ghost func fnvOf([]byte) uint32
 //@ func (p *hashPartitioner) Partition(message, numPartitions) props C17
 //@   returns r, err
 //@   requires numPartitions >= 1
+//@   callsite Sum32: effect $result == fnvOf(bytes)
+//@   ensures[reference_is_to_positive_mod @C17] message.Key != nil && err == nil && p.referenceAbs ==> r == (wrap32(fnvOf(bytes)) & 2147483647) % numPartitions
+//@   ensures[historical_is_abs_of_mod @C17] message.Key != nil && err == nil && !p.referenceAbs ==> r == ite(wrap32(fnvOf(bytes)) % numPartitions < 0, -(wrap32(fnvOf(bytes)) % numPartitions), wrap32(fnvOf(bytes)) % numPartitions)
+//@   callsite Write: requires[hashes_the_encoded_key @C17] $arg0 == bytes
+//@   per_return
 //@   ensures[in_range] message.Key != nil && err == nil ==> 0 <= r && r < numPartitions
 
 //@ func (p *roundRobinPartitioner) Partition(message, numPartitions) props C17
